@@ -68,6 +68,9 @@ type c11ImmCase struct {
 	regions []c11Region
 	call    func(p []unsafe.Pointer)
 	snap    func() []byte // encoding of operands that contain pointers (nil if none)
+	// ret, when set, is used instead of call and returns a digest of everything the call returns:
+	// it must be the same for every memory layout of the operands.
+	ret func(p []unsafe.Pointer) []byte
 }
 
 func c11NoPtr(t reflect.Type) bool {
@@ -97,11 +100,45 @@ func c11Img[T any](v *T) []byte {
 	return append([]byte{}, unsafe.Slice((*byte)(unsafe.Pointer(v)), n)...)
 }
 
+// c11Spare maps the address of a byte region to the number of bytes of spare capacity the
+// runner has provided behind it for the current call (absent: the slice has cap == len).
+var c11Spare sync.Map
+
 func c11Sl(p unsafe.Pointer, n int) []byte {
-	if n == 0 {
+	extra := 0
+	if v, ok := c11Spare.Load(uintptr(p)); ok {
+		extra = v.(int)
+	}
+	if n+extra == 0 {
 		return []byte{}
 	}
-	return unsafe.Slice((*byte)(p), n)[:n:n]
+	return unsafe.Slice((*byte)(p), n+extra)[: n : n+extra]
+}
+
+const c11TailLen = 64
+
+// c11ReadOnlyTail maps pages so that img ends exactly at a page boundary and is followed by a
+// READ-ONLY page: a slice of img with spare capacity reaches into memory that traps writes.
+func c11ReadOnlyTail(img []byte) (unsafe.Pointer, func(), error) {
+	ps := syscall.Getpagesize()
+	np := (len(img)+ps-1)/ps + 1
+	if len(img) == 0 {
+		np = 2
+	}
+	m, err := syscall.Mmap(-1, 0, np*ps, syscall.PROT_READ|syscall.PROT_WRITE, syscall.MAP_ANON|syscall.MAP_PRIVATE)
+	if err != nil {
+		return nil, nil, err
+	}
+	off := (np-1)*ps - len(img)
+	copy(m[off:], img)
+	for i := (np - 1) * ps; i < np*ps; i++ {
+		m[i] = 0x5a
+	}
+	if err := syscall.Mprotect(m[(np-1)*ps:], syscall.PROT_READ); err != nil {
+		_ = syscall.Munmap(m)
+		return nil, nil, err
+	}
+	return unsafe.Pointer(&m[off]), func() { _ = syscall.Munmap(m) }, nil
 }
 
 // c11Heap allocates an 8-byte aligned ordinary region holding img.
@@ -603,12 +640,29 @@ func c11ImmCases() []*c11ImmCase {
 
 var _ kem.Scheme
 
+func fresh0(c *c11ImmCase) []unsafe.Pointer {
+	q := make([]unsafe.Pointer, len(c.regions))
+	for i, o := range c.regions {
+		q[i], _ = c11Heap(o.img)
+	}
+	return q
+}
+
 func TestVerifC11_hist_immut(t *testing.T) {
 	r := verifmc.Start(t, "C11", "hist_immut")
 	defer r.Finish()
 	r.Rule("table of calls; every byte-slice / byte-array / pointer-free struct operand other than the receiver is a memory region: pass 1 compares every region (and an encoding snapshot of pointerful operands) " +
-		"before/after the call; pass 2 repeats the call once per region with that region in a read-only page and traps the fault; non-trivial = distinct (call, region) and (call, snapshot)")
-	cases := c11ImmCases()
+		"before/after the call; pass 2 repeats the call once per region with that region in a read-only page and traps the fault; pass 3 passes every byte-slice operand as a slice with spare capacity " +
+		"(watched tail in ordinary memory, tail in a read-only page, and all byte operands adjacent in one buffer) and requires an untouched tail and, for rows that return a digest, the same result as with exact-capacity copies; " +
+		"non-trivial = distinct (call, region, layout) and (call, snapshot)")
+	cases := append(c11ImmCases(), c11ImmResultCases()...)
+	invoke := func(c *c11ImmCase, p []unsafe.Pointer) []byte {
+		if c.ret != nil {
+			return c.ret(p)
+		}
+		c.call(p)
+		return nil
+	}
 	r.Set("calls", len(cases))
 	type viol struct{ key, caseID, what string }
 	var mu sync.Mutex
@@ -636,9 +690,17 @@ func TestVerifC11_hist_immut(t *testing.T) {
 			before = c.snap()
 		}
 		r.Eval(1)
-		if p, what := verifmc.Try(func() { c.call(ptrs) }); p {
+		var res0 []byte
+		if p, what := verifmc.Try(func() { res0 = invoke(c, ptrs) }); p {
 			t.Errorf("%s: the call panics in ordinary memory: %s", c.name, what)
 			return
+		}
+		if c.ret != nil { // a digest must be reproducible before it can be compared across layouts
+			var again []byte
+			if p, _ := verifmc.Try(func() { again = invoke(c, fresh0(c)) }); p || !bytes.Equal(again, res0) {
+				t.Errorf("%s: the result digest is not deterministic", c.name)
+				return
+			}
 		}
 		for i, rg := range c.regions {
 			r.Distinct(c.name, rg.name, "value")
@@ -682,7 +744,7 @@ func TestVerifC11_hist_immut(t *testing.T) {
 			r.Eval(1)
 			r.Distinct(c.name, rg.name, "read-only")
 			r.Count("read_only_region_runs", 1)
-			fault, addr, other := c11Fault(func() { c.call(ptrs2) })
+			fault, addr, other := c11Fault(func() { invoke(c, ptrs2) })
 			if fault {
 				r.Count("read_only_faults", 1)
 			}
@@ -704,6 +766,129 @@ func TestVerifC11_hist_immut(t *testing.T) {
 			}
 			release()
 		}
+		// pass 3: every byte-slice operand as a slice WITH SPARE CAPACITY (cap > len) of a larger buffer.
+		// The bytes beyond len belong to the caller: they must never be written, and the result must be
+		// the one obtained with exact-capacity arguments.
+		addV := func(cls, region, caseSuffix, what string) {
+			mu.Lock()
+			viols = append(viols, viol{"C11|" + c.name + "|" + cls + "|" + region, c.name + "|" + region + "|" + caseSuffix, what})
+			mu.Unlock()
+		}
+		fresh := func() []unsafe.Pointer {
+			q := make([]unsafe.Pointer, len(c.regions))
+			for i, o := range c.regions {
+				q[i], _ = c11Heap(o.img)
+			}
+			return q
+		}
+		for j, rg := range c.regions {
+			if rg.strukt || len(rg.img) == 0 {
+				continue
+			}
+			n := len(rg.img)
+			// 3a: ordinary memory, watched tail
+			q := fresh()
+			buf := make([]byte, n+c11TailLen)
+			copy(buf, rg.img)
+			for i := n; i < len(buf); i++ {
+				buf[i] = 0xa5
+			}
+			q[j] = unsafe.Pointer(&buf[0])
+			c11Spare.Store(uintptr(q[j]), c11TailLen)
+			var res []byte
+			p, what := verifmc.Try(func() { res = invoke(c, q) })
+			c11Spare.Delete(uintptr(q[j]))
+			r.Eval(1)
+			r.Distinct(c.name, rg.name, "spare-capacity")
+			r.Count("spare_capacity_runs", 1)
+			if p {
+				addV("panic-with-spare-capacity-argument", rg.name, "spare", fmt.Sprintf("%s panics when %s is a slice with spare capacity: %s", c.name, rg.name, what))
+				continue
+			}
+			tailOK := true
+			for i := n; i < len(buf); i++ {
+				if buf[i] != 0xa5 {
+					tailOK = false
+					addV("writes-beyond-len-into-spare-capacity", rg.name, "spare", fmt.Sprintf("%s, given %s as a slice with len %d and spare capacity, wrote %#02x at index %d (= len+%d) of the caller's backing array", c.name, rg.name, n, buf[i], i, i-n))
+					break
+				}
+			}
+			if c.ret != nil && !bytes.Equal(res, res0) {
+				addV("result-depends-on-argument-layout", rg.name, "spare", fmt.Sprintf("%s returns a different result when %s has spare capacity: %s vs %s with exact capacity", c.name, rg.name, verifmc.Hex(res), verifmc.Hex(res0)))
+			}
+			// 3b: the spare capacity reaches into a read-only page
+			q = fresh()
+			ro, release, err := c11ReadOnlyTail(rg.img)
+			if err != nil {
+				r.NotExhaustive("mmap/mprotect unavailable: read-only tail pass skipped (" + err.Error() + ")")
+				break
+			}
+			q[j] = ro
+			c11Spare.Store(uintptr(ro), c11TailLen)
+			fault, addr, other := c11Fault(func() { res = invoke(c, q) })
+			c11Spare.Delete(uintptr(ro))
+			r.Eval(1)
+			r.Count("read_only_tail_runs", 1)
+			if fault && tailOK { // otherwise already reported by 3a
+				addV("writes-beyond-len-into-spare-capacity", rg.name, "spare-ro", fmt.Sprintf("%s writes beyond len(%s) into the caller's spare capacity (memory fault at len+%d with the tail in a read-only page)", c.name, rg.name, int64(addr)-int64(uintptr(ro))-int64(n)))
+			} else if other != "" {
+				t.Errorf("%s: panics with the tail of %s in read-only memory, not a fault: %s", c.name, rg.name, other)
+			} else if !fault && c.ret != nil && !bytes.Equal(res, res0) {
+				addV("result-depends-on-argument-layout", rg.name, "spare-ro", fmt.Sprintf("%s returns a different result when %s has spare capacity", c.name, rg.name))
+			}
+			release()
+		}
+		// 3c: all byte operands adjacent in ONE buffer, each slice with capacity up to the end of the
+		// buffer (rec[:k], rec[k:] ...): the natural way a parsed record hands out its fields.
+		{
+			total := 0
+			for _, rg := range c.regions {
+				if !rg.strukt && len(rg.img) > 0 {
+					total += len(rg.img)
+				}
+			}
+			if total > 0 {
+				q := fresh()
+				buf := make([]byte, total+c11TailLen)
+				for i := total; i < len(buf); i++ {
+					buf[i] = 0xa5
+				}
+				off := 0
+				var keys []uintptr
+				for i, rg := range c.regions {
+					if rg.strukt || len(rg.img) == 0 {
+						continue
+					}
+					copy(buf[off:], rg.img)
+					q[i] = unsafe.Pointer(&buf[off])
+					c11Spare.Store(uintptr(q[i]), len(buf)-off-len(rg.img))
+					keys = append(keys, uintptr(q[i]))
+					off += len(rg.img)
+				}
+				want := append([]byte{}, buf...)
+				var res []byte
+				p, what := verifmc.Try(func() { res = invoke(c, q) })
+				for _, k := range keys {
+					c11Spare.Delete(k)
+				}
+				r.Eval(1)
+				r.Distinct(c.name, "adjacent")
+				r.Count("adjacent_layout_runs", 1)
+				switch {
+				case p:
+					addV("panic-with-spare-capacity-argument", "adjacent", "adjacent", fmt.Sprintf("%s panics when its byte arguments are adjacent sub-slices of one buffer: %s", c.name, what))
+				case !bytes.Equal(buf, want):
+					at := 0
+					for at < len(buf) && buf[at] == want[at] {
+						at++
+					}
+					addV("writes-beyond-len-into-spare-capacity", "adjacent", "adjacent", fmt.Sprintf("%s, given its byte arguments as adjacent sub-slices of one buffer, changed byte %d of that buffer (%#02x -> %#02x): an argument was written through another argument's spare capacity", c.name, at, want[at], buf[at]))
+				}
+				if !p && c.ret != nil && !bytes.Equal(res, res0) {
+					addV("result-depends-on-argument-layout", "adjacent", "adjacent", fmt.Sprintf("%s returns %s when its byte arguments are adjacent sub-slices of one buffer (dst = rec[:k], msg = rec[k:] ...), %s with separately stored copies", c.name, verifmc.Hex(res), verifmc.Hex(res0)))
+				}
+			}
+		}
 	})
 	sort.Slice(viols, func(i, j int) bool { return viols[i].key < viols[j].key })
 	for _, v := range viols {
@@ -722,4 +907,6 @@ func TestVerifC11_hist_immut(t *testing.T) {
 		r.RequireCounter("read_only_region_runs", 150)
 	}
 	r.RequireCounter("operand_regions_compared", 150)
+	r.RequireCounter("spare_capacity_runs", 250)
+	r.RequireCounter("adjacent_layout_runs", 100)
 }
